@@ -1,4 +1,5 @@
 import Asn1Proofs.Properties.C01
 import Asn1Proofs.Properties.C14
+import Asn1Proofs.Properties.C14b
 import Asn1Proofs.Properties.C15
 import Asn1Proofs.Properties.C16
